@@ -101,8 +101,13 @@ pub fn gap_offsets(doc: &Doc, k: usize) -> Vec<usize> {
         }
     };
     let mut v: Vec<usize> = (from..next_start).filter(|p| text.is_char_boundary(*p)).collect();
+    // directly in front of the next token: in front of punctuation always; in front of a word
+    // (identifier, keyword, literal) when white space separates the cursor from the previous
+    // token - typing there starts a new word only together with a following blank, but the
+    // position itself still is the gap's (the implementation looks at the character in front)
     let punct = doc.pr.toks.get(k).map(|t| matches!(t.class, TokClass::Symbol)).unwrap_or(true);
-    if punct && next_start >= from {
+    let after_space = next_start > 0 && text[..next_start].ends_with([' ', '\t', '\n', '\r']) && next_start > from.saturating_sub(1);
+    if (punct || after_space) && next_start >= from {
         v.push(next_start);
     }
     // top-level gap in front of the first token: position 0 only makes sense in an empty gap
